@@ -573,3 +573,25 @@ Proof.
       * exists [], (pdur c s). rewrite E. simpl. replace (tau c s) with (t0 c) by lia. reflexivity.
       * exists ((tau c s, pdur c s) :: l), d. rewrite E. reflexivity.
 Qed.
+
+(* ---- the loop never blocks: in every state some select case or notification is enabled ------------- *)
+Lemma progress : forall c s, exists ch s', step c s ch = Some s'.
+Proof.
+  intros c s. destruct (chan s) eqn:Ec.
+  - exists CRecv. unfold step. rewrite Ec. eauto.
+  - assert (Ht : (tau c s = lz s /\ c_lazy c = true) \/ tau c s = bk s \/
+                 exists h r, pend s = h :: r /\ tau c s = h).
+    { unfold tau. rewrite Ec. destruct (c_lazy c); destruct (pend s) as [|h r].
+      - destruct (Z.min_spec (lz s) (bk s)) as [[_ E]|[_ E]]; rewrite E; auto.
+      - destruct (Z.min_spec (Z.min (lz s) (bk s)) h) as [[_ E]|[_ E]]; rewrite E.
+        + destruct (Z.min_spec (lz s) (bk s)) as [[_ E']|[_ E']]; rewrite E'; auto.
+        + right; right; eauto.
+      - auto.
+      - destruct (Z.min_spec (bk s) h) as [[_ E]|[_ E]]; rewrite E; auto.
+        right; right; eauto. }
+    destruct Ht as [[E El]|[E|(h & r & Ep & E)]].
+    + exists CLazy. unfold step. rewrite El, E, Z.eqb_refl. simpl. eauto.
+    + exists CBlock. unfold step. rewrite E, Z.eqb_refl.
+      destruct (c_lazy c && negb (avail s)); eauto.
+    + exists CEnv. unfold step. rewrite Ep, E, Z.eqb_refl. eauto.
+Qed.
